@@ -121,6 +121,17 @@ CHECKS = {
              "Supported subset = what gen/ghw_writer.py emits (no i64 / physical types, no multi-dimensional or unconstrained arrays, dense signal ids). Fixes F23 (downto element labels) and F26 (element subtype names) are prerequisites. "
              "Trusted: leb128, f64::from_le_bytes.",
     ),
+    "C12": dict(
+        technique="Lean 4 proof (value-at-every-time is invariant under repetition removal; time tables commute with the timescale factor) + cross-format differential: one abstract design written as GHW and as VCD, both loaded by the real code and compared with the observation of the design's denotation; corpus VCD/FST pairs",
+        text="Lean theorems C12_value_at_canon (for every change list with non-decreasing indices and every time index: the value shown is unchanged by the removal of immediate repetitions — formats differ in exactly this redundancy) and "
+             "C12_timescale (strictPrefixMax commutes with multiplying all timestamps by the timescale factor: same table, same indices, for every factor and every timestamp sequence). The cross-format comparison is differential: "
+             "random designs are serialised by two independent writers (GHW: per-bit records, fs; VCD: text, 1 fs / 1 ps, shared id codes); the real loader's observation of each file (tree: names, nesting, order, widths; per variable the "
+             "value at every time in fs) must equal the observation computed by the Lean specification from the design. All corpus VCD/FST pairs go through the same observation.",
+        design_ref="DESIGN.md section 5 / C12",
+        note="There is no Lean model composing the three loaders; each loader is tied to its format by C01/C09 (VCD), C10 (FST) and C11 (GHW). FST has no writer in the sandbox (fst-reader is read-only, no vcd2fst), so generated waveforms cover "
+             "VCD x GHW and FST is covered by the corpus pairs only. Arrays of scalars / vectors are not expressible in VCD with the same tree and are left out of the generated pairs; the one corpus GHW/FST pair comes from two tools "
+             "with different trees (packages, enums as strings) and is left to the repo's own test.",
+    ),
     "C13": dict(
         technique="Lean 4 proof (slice/compress = packing of the symbols fetched at the requested bit positions, by induction; entry round trip) + exhaustive sub-range differential in release and debug-assertion builds",
         text="Lean theorems C13_slice_symbols (for every kind, parent width and [msb:lsb]: the produced bytes render as the parent's symbols at those bit positions), C13_minimal_repack, C13_entry. "
